@@ -5,13 +5,13 @@ CONSTANTS
   c1 = c1
   c2 = c2
   Prod = {p1, p2}
-  Cons = {c1, c2}
+  Cons = {c1}
   Cap = 2
-  NSend = 2
-  NRecv = 2
+  NSend <- S32
+  NRecv <- R3
   TwoStep = TRUE
   PhotonSend = TRUE
-  Timed = TRUE
+  Timed = FALSE
   Bug = "none"
-SYMMETRY Sym
+
 INVARIANTS NotStuckNonEmpty NotStuckNonFull PendingMirrorsCount CountersSane Ledger
